@@ -3,6 +3,7 @@ package main
 import (
 	"bytes"
 	"fmt"
+	"os"
 	"runtime"
 	"strings"
 	"sync"
@@ -274,6 +275,13 @@ func installHooks() {
 
 // ---- panic capture -----------------------------------------------------------
 
+var repoPrefix = func() string {
+	if v := os.Getenv("VW_REPO_PREFIX"); v != "" {
+		return v
+	}
+	return "/repo/"
+}()
+
 func panicInfo(r any) *wire.PanicInfo {
 	buf := make([]byte, 1<<16)
 	n := runtime.Stack(buf, false)
@@ -282,7 +290,7 @@ func panicInfo(r any) *wire.PanicInfo {
 	lines := strings.Split(st, "\n")
 	for i := 0; i+1 < len(lines); i++ {
 		l := strings.TrimSpace(lines[i+1])
-		if strings.HasPrefix(l, "/repo/") && !strings.Contains(l, "hooks_verif.go") {
+		if strings.HasPrefix(l, repoPrefix) && !strings.Contains(l, "hooks_verif.go") {
 			fn := strings.TrimSpace(lines[i])
 			if k := strings.LastIndex(fn, "("); k > 0 {
 				fn = fn[:k]
@@ -290,7 +298,7 @@ func panicInfo(r any) *wire.PanicInfo {
 			if k := strings.LastIndex(fn, "/"); k >= 0 {
 				fn = fn[k+1:]
 			}
-			loc := l
+			loc := "/repo/" + strings.TrimPrefix(l, repoPrefix)
 			if k := strings.Index(loc, " +0x"); k > 0 {
 				loc = loc[:k]
 			}
